@@ -290,15 +290,40 @@ Definition visit_block (ds : decls) (su : signal_use) (b : block) : signal_use :
 Definition collect (g : cfg) : signal_use :=
   fold_left (visit_block (c_decls g)) (c_blocks g) signal_use0.
 
-(* SignalUse::get_constraints: the filter closure *)
-Definition use_matches (signal : vname) (acc : list (access expr)) (u : vuse) : bool :=
-  vname_eqb (fst u) signal && accs_eqb (snd u) acc.
+(* SignalUse::get_constraints (after 4f017e8 + amendment): the closure `mentions`,
+   `used[..n] == access[..n]` with n the smaller of the two lengths: one access is a
+   prefix of the other *)
+Fixpoint accs_compat (a b : list (access expr)) : bool :=
+  match a, b with
+  | x :: a', y :: b' => access_eqb x y && accs_compat a' b'
+  | _, _ => true
+  end.
 
+Definition use_matches (signal : vname) (acc : list (access expr)) (u : vuse) : bool :=
+  vname_eqb (fst u) signal && accs_compat (snd u) acc.
+
+(* the closure `any_read`: signals_read and components_read of an expression *)
+Definition any_read (ds : decls) (signal : vname) (acc : list (access expr)) (e : expr) : bool :=
+  let r := expr_uses ds e in
+  existsb (use_matches signal acc) (u_sigread r ++ u_compread r).
+
+(* the filter closure: a constraint whose right-hand side is an Update node
+   (`var[target] <== rhe`) is matched through its target, rhe and the index
+   expressions of the target - not through the whole-variable read of the
+   Update node; any other constraint through the reads of both sides and the
+   components written by the left-hand side *)
 Definition constraint_mentions (ds : decls) (signal : vname) (acc : list (access expr)) (c : constraint) : bool :=
-  let l := c_lhs_uses c in
-  let r := expr_uses ds (c_rhe c) in
-  existsb (use_matches signal acc)
-    (u_sigread l ++ u_compread l ++ u_compwritten l ++ u_sigread r ++ u_compread r).
+  match c_rhe c with
+  | EUpdate var target rhe _ =>
+    use_matches signal acc (var, target)
+    || any_read ds signal acc rhe
+    || existsb (fun a => match a with AIdx x => any_read ds signal acc x | AComp _ => false end) target
+  | _ =>
+    let l := c_lhs_uses c in
+    existsb (use_matches signal acc) (u_sigread l ++ u_compread l)
+    || any_read ds signal acc (c_rhe c)
+    || existsb (use_matches signal acc) (u_compwritten l)
+  end.
 
 Definition get_constraint_metas (ds : decls) (su : signal_use) (signal : vname) (acc : list (access expr)) : list meta :=
   map c_meta (filter (constraint_mentions ds signal acc) (su_constraints su)).
